@@ -11,6 +11,7 @@ import (
 	"encoding/json"
 	"fmt"
 	"io"
+	"math/bits"
 	"net/http"
 	"net/http/httptest"
 	"os"
@@ -212,6 +213,8 @@ func TestVerifC10API(t *testing.T) {
 	out := zzverif.NewOut()
 	defer out.Close()
 	files := verifC10Files()
+	maxSeek := verifC10MaxSeek(t)
+	out.Add("fs_max_seek_log2", bits.Len64(uint64(maxSeek)))
 	type result struct {
 		mode   string
 		idx    int
@@ -264,7 +267,7 @@ func TestVerifC10API(t *testing.T) {
 			case strings.HasPrefix(r.res, "create=200 error=false"):
 				impl = "ok sizes=" + r.layers
 			}
-			out.Case("gguf-layers "+zzverif.Hex(files[r.idx]), impl)
+			out.Case(fmt.Sprintf("gguf-layers %d %s", maxSeek, zzverif.Hex(files[r.idx])), impl)
 			if r.idx >= verifC10MultiStart {
 				out.Count("api_multi_model_files")
 				out.Count("api_multi_" + strings.Fields(impl)[0])
@@ -272,6 +275,30 @@ func TestVerifC10API(t *testing.T) {
 		}
 		fmt.Fprintf(os.Stderr, "c10-api %s #%d: %s\n", r.mode, r.idx, r.res)
 	}
+}
+
+// verifC10MaxSeek measures the largest offset the file system under the test's temporary directory lets a file
+// seek to (lseek fails with EINVAL above it: 2^63-1 on tmpfs, 16 TiB - 4 KiB on ext4 with 4 KiB blocks, ...).  The
+// uploaded blob is an os.File, so create's decoder sees that limit; the model takes it as a parameter.
+func verifC10MaxSeek(t *testing.T) int64 {
+	f, err := os.CreateTemp(t.TempDir(), "seek")
+	if err != nil {
+		t.Fatal(err)
+	}
+	defer f.Close()
+	lo, hi := int64(0), int64(1<<63-1) // lo always works
+	if _, err := f.Seek(hi, io.SeekStart); err == nil {
+		return hi
+	}
+	for lo+1 < hi {
+		mid := lo + (hi-lo)/2
+		if _, err := f.Seek(mid, io.SeekStart); err == nil {
+			lo = mid
+		} else {
+			hi = mid
+		}
+	}
+	return lo
 }
 
 func verifC10RunChild(idx int, mode string) (string, string) {
